@@ -78,10 +78,20 @@ func c15Check(in c15Input) string {
 			c.ResponseWriter().Before(func(ResponseWriter) { raise() })
 			return "body"
 		}}
+	case "action":
+		// Recovery is the last handler of the chain and the panic is raised by the final action
+		if in.Value != "str" {
+			return ""
+		}
+		f.Action(func(c Context) { raise() })
+		f.Get("/boom")
+		route = nil
 	case "deep":
 		route = []Handler{func(c Context) { c.Next() }, func(c Context) { c.Next() }, func(c Context) { raise() }}
 	}
-	f.Get("/boom", route...)
+	if in.Site != "action" {
+		f.Get("/boom", route...)
+	}
 	f.Get("/ok", func() string { return "fine" })
 	rec := httptest.NewRecorder()
 	escaped := ""
@@ -137,7 +147,7 @@ func TestVerifReplayC15(t *testing.T) {
 search:
 	for _, env := range []string{string(EnvTypeProd), string(EnvTypeTest), string(EnvTypeDev)} {
 		for _, v := range []string{"str", "err", "struct", "runtime", "abort"} {
-			for _, site := range []string{"before", "after-status", "after-body", "dependency", "deep", "hook"} {
+			for _, site := range []string{"before", "after-status", "after-body", "dependency", "deep", "hook", "action"} {
 				in := c15Input{Env: env, Value: v, Site: site}
 				count++
 				if what := c15Check(in); what != "" {
